@@ -737,6 +737,56 @@ func c04(c *Ctx) {
 		check("limit == 0 ⇒ dropped = len, then emptied", zero, cntAll, empty)
 	}
 
+	// the "link carries no information" early return of AddLink looks at the link the caller supplied, not at a copy whose
+	// attributes were already capped (with a per-link limit of 0 every link would look empty and vanish uncounted)
+	if fn := c.Fn(ix, "R5", "(*recordingSpan).AddLink"); fn != nil {
+		param := fn.Obj.Type().(*types.Signature).Params().At(0)
+		n, good, bad := 0, true, ""
+		inspectNoLit(fn.Body(), func(nd ast.Node) bool {
+			ifs, ok := nd.(*ast.IfStmt)
+			if !ok || len(ifs.Body.List) == 0 {
+				return true
+			}
+			// a body that only returns (possibly wrapped in blocks by the normalisation)
+			onlyReturn := true
+			ast.Inspect(ifs.Body, func(m ast.Node) bool {
+				switch m.(type) {
+				case *ast.BlockStmt, *ast.ReturnStmt, nil:
+					return true
+				}
+				onlyReturn = false
+				return false
+			})
+			if !onlyReturn {
+				return true
+			}
+			for _, cj := range conjuncts(ifs.Cond) {
+				l, op, r, okc := cmpNorm(cj, 1)
+				if !okc || op != token.EQL {
+					continue
+				}
+				z, isZ := constInt(info, r)
+				call, isC := unparen(l).(*ast.CallExpr)
+				if !isZ || z != 0 || !isC || builtinName(info, call) != "len" || len(call.Args) != 1 {
+					continue
+				}
+				fv, base := fieldOf(info, call.Args[0])
+				if fv == nil || fv.Name() != "Attributes" {
+					continue
+				}
+				n++
+				if base == nil || !sameVar(info, base, param) {
+					good, bad = false, exprStr(call.Args[0])
+				}
+			}
+			return true
+		})
+		if n > 0 {
+			c.Check(good, "R5", "sdk/trace|(*recordingSpan).AddLink|the no-information guard reads the supplied link", at(ix.M, fn.Pos()), "len(link.Attributes) of the parameter",
+				"a link is ignored because "+bad+" is empty, but that is not the link the caller supplied (its attributes may already be capped: with a per-link limit of 0 an attribute-only link vanishes without being counted)")
+		}
+	}
+
 	// R8 index-map pairing in the de-duplication code
 	c.Rule("R8", "E3 pairing", "de-duplication index maps record len(slice) − 1 right after the append they index (dedupeAttrsFromRecord, addOverCapAttrs)", 2)
 	isIndexStore := func(n ast.Node) bool {
